@@ -496,7 +496,33 @@ def content_of(spec):
 
 
 def ref_bytes(spec):
-    return R.encode(content_of(spec))
+    raw = R.encode(content_of(spec))
+    if spec.get('endian') == 'little':
+        raw = to_little_endian(spec, raw)
+    return raw
+
+
+def to_little_endian(spec, raw):
+    """the same file as a little-endian Fortran program writes it: every
+    4-byte integer / real word and every record marker byte-swapped,
+    character words (one character + three blanks) left as they are.  Only
+    for uamiv, the one reader that documents an `endian` argument."""
+    if spec['fmt'] != 'uamiv':
+        raise KeyError('little-endian encoding is defined for uamiv only')
+    from .ref import fortran
+
+    def swap(b, keep=()):
+        return b''.join(b[i:i + 4] if i // 4 in keep else b[i:i + 4][::-1]
+                        for i in range(0, len(b), 4))
+    recs = fortran.payloads(raw, '>')
+    out = [swap(recs[0], keep=set(range(70))), swap(recs[1]), swap(recs[2]),
+           recs[3]]
+    for rec in recs[4:]:
+        if len(rec) == 16:                  # time record
+            out.append(swap(rec))
+        else:                               # ione, 10 character words, data
+            out.append(swap(rec, keep=set(range(1, 11))))
+    return fortran.records(out, '<')
 
 
 def decode_hints(spec):
@@ -662,6 +688,9 @@ def open_lib(spec, path, reader='memmap'):
     fmt = spec['fmt']
     mod = MM if reader == 'memmap' else RD
     cls = getattr(mod, fmt)
+    if fmt == 'uamiv' and spec.get('endian') == 'little' and \
+            reader == 'memmap':
+        return cls(path, endian='little')
     if fmt in ('uamiv', 'lateral_boundary'):
         return cls(path)
     return cls(path, spec['ny'], spec['nx'])
@@ -709,6 +738,49 @@ def as_vdtype(spec, arr32):
         from .core import HarnessError
         raise HarnessError('payload is not exactly representable as %s' % dt)
     return out
+
+
+def creation_order(spec, lay):
+    """order in which the data variables are created in the in-memory file
+    (spec['vorder'] = permutation of range(len(lay)), route 'pnc' only).
+    The formats fix the record order themselves (landuse: land-use record
+    first; temperature: surface then layers; wind: U then V; uamiv /
+    lateral_boundary: the VAR-LIST order, which is content and is NOT
+    permuted), so the bytes written must not depend on it."""
+    order = spec.get('vorder')
+    if not order or sorted(order) != list(range(len(lay))):
+        return lay
+    return [lay[i] for i in order]
+
+
+@st.composite
+def input_orders(draw, spec):
+    n = len(var_layout(spec))
+    if n < 2 or draw(st.booleans()):
+        spec['vorder'] = None
+        return None
+    spec['vorder'] = list(draw(st.permutations(list(range(n)))))
+    return spec['vorder']
+
+
+def bystander_spec(spec):
+    """another file of the same format on a different grid (and, where the
+    format has them, another species count)"""
+    b = dict(spec)
+    b['nx'] = spec['nx'] + 1
+    b['ny'] = spec['ny'] + 2
+    if spec['fmt'] == 'landuse':
+        b['nextra'] = 0 if spec['nextra'] else 1
+    else:
+        b['nz'] = spec['nz'] + 1
+    if 'species' in spec:
+        b['species'] = list(spec['species']) + ['BYST']
+        if 'BYST' in spec['species']:
+            b['species'] = list(spec['species'])[:1]
+    b.pop('endian', None)
+    b.pop('mask', None)
+    b.pop('vorder', None)
+    return b
 
 
 def mask_pattern(shape):
@@ -801,7 +873,7 @@ def build_lib(spec, route='pnc', with_etflag=False):
         f.createDimension('ROW', spec['ny'])
         f.createDimension('COL', spec['nx'])
         f._newstyle = spec['newstyle']
-        for name, dims in lay:
+        for name, dims in creation_order(spec, lay):
             v = f.createVariable(name, VDTYPES[spec.get('vdtype', 'f4')][0],
                                  dims, **_fill_kw(spec))
             v[...] = _masked_build(spec, as_vdtype(spec, m.vars[name][1]))
@@ -845,7 +917,7 @@ def build_lib(spec, route='pnc', with_etflag=False):
             v.units = '<YYYYDDD,HHMMSS>'
             v.long_name = 'ETFLAG'.ljust(16)
             v.var_desc = 'ETFLAG'.ljust(80)
-        for name, dims in lay:
+        for name, dims in creation_order(spec, lay):
             v = f.createVariable(name, VDTYPES[spec.get('vdtype', 'f4')][0],
                                  dims, **_fill_kw(spec))
             v[...] = _masked_build(spec, as_vdtype(spec, m.vars[name][1]))
